@@ -102,6 +102,9 @@ func queryShape(q *Query) string {
 var c01EarlierFails []string
 
 func (c01) Exec(seed int64, i int, tier string) Record {
+	if i%1500 == 700 {
+		return c01HugeCase(CaseRng(seed, "C01", i)) // class huge (b12_helpers.go)
+	}
 	switch i % 16 {
 	case 6:
 		return c01LitLeftCase(CaseRng(seed, "C01", i))
